@@ -484,6 +484,15 @@ func (r *Run) step() *Violation {
 	case opSnapCombo:
 		return r.doSnapCombo(t.Intn(r.nSubs))
 	case opFault:
+		if r.Variant == "order" && t.Bool(50) {
+			// a storage fault inside a publish (the predecessor lookup is one of its statements)
+			kind := []FaultKind{FaultStmtErr, FaultStmtErr, FaultCommitErr, FaultCancelAfter}[t.Intn(4)]
+			r.pendingFault = fmt.Sprintf("sql:%d:%d", kind, 1+t.Intn(12))
+			r.ev("arm fault %s for the publish that follows", r.pendingFault)
+			r.stat("armed_" + kind.String())
+			r.stat("fault_aimed_at_publish")
+			return r.doPublish(t.Intn(r.nTopics))
+		}
 		if r.Variant == "ack" && t.Bool(50) {
 			// a storage fault placed inside an acknowledgement (early driver events, so that
 			// it fires), the most interesting place for "acknowledged means acknowledged"
@@ -509,7 +518,11 @@ func (r *Run) step() *Violation {
 
 func (r *Run) doArmFault() {
 	t := r.T
-	switch t.Intn(6) {
+	switch t.Intn(7) {
+	case 6:
+		// the client gives up right after a statement has executed; the transaction watcher
+		// rolls back before the handler continues (often: between the last statement and commit)
+		r.pendingFault = fmt.Sprintf("sql:%d:%d", FaultCancelAfter, 1+t.Intn(14))
 	case 0:
 		r.pendingFault = "grpc"
 	case 1:
